@@ -304,8 +304,9 @@ package types
 // from the bodies of the ValidateBasic methods (helpers that contribute nothing to those facts are assumed pure, with no postcondition).
 //@ func ValidateServiceDeposit
 //@ vars types.ValidateServiceDeposit: deposit=github.com/cosmos/cosmos-sdk/types.Coins#0
-//@ props C20 C03
+//@ props C20 C03 C19
 //@ ensures no_negative_amount: err == NoErr ==> (forall d Str :: {amt(deposit, d)} amt(deposit, d) >= 0)
+//@ ensures [C19,C15] accepts_exactly_the_valid_deposits_without_negative_amounts: (err == NoErr) <==> (coinsValid(deposit) && !isAnyNegative(deposit))
 
 //@ func ValidateWithdrawAddress
 //@ vars types.ValidateWithdrawAddress: withdrawAddress=github.com/cosmos/cosmos-sdk/types.AccAddress#0
